@@ -4,6 +4,6 @@ CONSTANTS
   Full = FALSE
   TamperLen = 100
   Lens = {0, 8, 100}
-  Passwords = {"empty", "ascii", "utf8", "badutf8"}
+  Passwords = {"empty", "ascii", "utf8", "long", "badutf8"}
   WrongPwd = {"char", "case", "longer", "shorter", "empty", "other", "lowbyte", "badbyte"}
 INVARIANTS RecipientsRecover OnlyRecipients VerifiesExactlyWhenGenuine BundleOnlyWithPassword Emit
